@@ -234,7 +234,7 @@ run_alg_variant(long item, void *arg)
                 return;
         m = mgr_new(g_v);
         KS = keyset_new(m, 70);
-        static const uint32_t WANT[5] = { 64, 17, 100, 33, 160 };
+        static const uint32_t WANT[5] = { 64, 0, 100, 33, 160 }; /* 0: the row's minimum length (an empty message where that is accepted) */
         for (g_dir = (A->kind == AK_HASH ? 1 : 0); g_dir < 2; g_dir++)
                 for (int n = 1; n <= 5; n++)
                         for (int bad = -1; bad < n; bad++) { /* position of an invalid job (-1: none) */
@@ -251,7 +251,7 @@ run_alg_variant(long item, void *arg)
                                         j->user_data = (void *) (long) (k + 1);
                                         j->user_data2 = (void *) (long) (k == bad ? 99 : 7);
                                         if (k == bad) { /* violate one documented constraint */
-                                                if (A->kind != AK_HASH)
+                                                if (A->kind != AK_HASH && A->family != F_PON) /* (PON without ciphering needs no key) */
                                                         j->key_len_in_bytes = 5;
                                                 else
                                                         j->auth_tag_output_len_in_bytes = 250;
